@@ -12,7 +12,8 @@ CONSTANTS Configs,        \* set of [noise, exp, login, K]
           StartConnected, \* TRUE: behaviours start from a freshly connected session (InitConnected)
           Grid,           \* > 0: while idle, time may also advance in steps of Grid up to the next deadline
           TrackKA,        \* TRUE: maintain the keep-alive history (C10 slice)
-          SubKinds        \* kinds user subscriptions may be registered for
+          SubKinds,       \* kinds user subscriptions may be registered for
+          NAddrs          \* numbers of addresses the host may resolve to
 
 VARIABLES e,            \* [n, f] events and faults used so far
           hist,         \* generation only: the schedule so far (hidden by VIEW)
@@ -39,7 +40,7 @@ Use(fault) == /\ ~e.stop /\ e.n < MaxEnv /\ (fault => e.f < MaxFaults)
 
 Chunks == UNION {[1..k -> Msgs] : k \in 1..MaxChunk}
 
-MCInit == /\ \E c \in Configs : s = (IF StartConnected THEN InitConnected(c) ELSE InitState(c))
+MCInit == /\ \E c \in Configs, n \in NAddrs : s = (IF StartConnected THEN InitConnected(c) ELSE InitStateN(c, n))
           /\ e = [n |-> 0, f |-> 0, stop |-> FALSE] /\ hist = <<>> /\ ev = <<"init">> /\ ka = KA0
 
 Env ==
@@ -107,7 +108,7 @@ EnvWait ==
 \* generation: the story ends here; print its schedule
 Stop == /\ GenMode /\ ~e.stop /\ Len(hist) >= 4 /\ Quiescent(s) /\ NothingDue(s)
         /\ e' = [e EXCEPT !.stop = TRUE] /\ UNCHANGED <<s, hist, ev, ka>>
-        /\ PrintT(<<"SCHED", ToJson(<<s.cfg, hist>>)>>)
+        /\ PrintT(<<"SCHED", ToJson(<<s.cfg, hist, s.naddr>>)>>)
 
 MCNext == Env \/ Internal \/ AdvanceTime \/ EnvWait \/ Stop
 MCSpec == MCInit /\ [][MCNext]_mcvars
